@@ -409,6 +409,55 @@ theorem eagerVT_pure {inF : Bool} {env : Env} (σ : St) (v : Var) (r : Rel σ.st
     have h2 := eagerSs_pure _ ss (h1.rel r)
     exact h1.trans h2
 
+mutual
+theorem restE_pure {inF : Bool} {env : Env} (σ : St) (e : Expr) (r : Rel σ.stack σ.fdepth inF env) :
+    Pure σ (restE σ e) (rE inF env e) := by
+  cases e with
+  | paren _ e => simpa [restE, rE] using restE_pure σ e r
+  | un _ _ e => simpa [restE, rE] using restE_pure σ e r
+  | bin _ l _ rr =>
+    have h1 := restE_pure σ l r
+    have h2 := restE_pure _ rr (h1.rel r)
+    simpa [restE, rE] using h1.trans h2
+  | func _ _ _ => simpa [restE, rE] using Pure.refl σ
+  | call c => simpa [restE, rE] using Pure.refl σ
+  | tbl _ fs => simpa [restE, rE] using restFields_pure σ fs r
+  | dots t => simpa [restE, rE] using read_pure σ t r
+  | var v =>
+    cases v with
+    | name t => simpa [restE, rE] using read_pure σ t r
+    | expr _ p _ => simpa [restE, rE] using restP_pure σ p r
+  | nil _ => simpa [restE, rE] using Pure.refl σ
+  | true_ _ => simpa [restE, rE] using Pure.refl σ
+  | false_ _ => simpa [restE, rE] using Pure.refl σ
+  | num _ => simpa [restE, rE] using Pure.refl σ
+  | str _ _ _ => simpa [restE, rE] using Pure.refl σ
+  | unsupported _ => simpa [restE, rE] using Pure.refl σ
+theorem restP_pure {inF : Bool} {env : Env} (σ : St) (p : Prefix) (r : Rel σ.stack σ.fdepth inF env) :
+    Pure σ (restP σ p) (rP inF env p) := by
+  cases p with
+  | name t => simpa [restP, rP] using read_pure σ t r
+  | expr e => simpa [restP, rP] using restE_pure σ e r
+theorem restF_pure {inF : Bool} {env : Env} (σ : St) (f : Field) (r : Rel σ.stack σ.fdepth inF env) :
+    Pure σ (restF σ f) (rF inF env f) := by
+  cases f with
+  | exprKey _ k v =>
+    have h1 := restE_pure σ k r
+    have h2 := restE_pure _ v (h1.rel r)
+    simpa [restF, rF] using h1.trans h2
+  | nameKey _ _ v => simpa [restF, rF] using restE_pure σ v r
+  | noKey v => simpa [restF, rF] using restE_pure σ v r
+  | unsupported _ => simpa [restF, rF] using Pure.refl σ
+theorem restFields_pure {inF : Bool} {env : Env} (σ : St) (fs : FieldList) (r : Rel σ.stack σ.fdepth inF env) :
+    Pure σ (restFields σ fs) (rFs inF env fs) := by
+  cases fs with
+  | nil => simpa [restFields, rFs] using Pure.refl σ
+  | cons f rest =>
+    have h1 := restF_pure σ f r
+    have h2 := restFields_pure _ rest (h1.rel r)
+    simpa [restFields, rFs] using h1.trans h2
+end
+
 /-! ### what the induction carries -/
 
 /-- an expression-like traversal: stack unchanged, answers as listed -/
@@ -534,12 +583,15 @@ theorem while_case (sp : Span) (c : Expr) (b : Block) (hc : EOK c) (hb : BOK b) 
   exact (h1.trans (inScope (h2.thenGrow g3))).block r
     (by show _ = eE inF env c ++ dE inF env c ++ (sBlock inF env b).1; simp [List.append_assoc])
 
-theorem repeat_case (sp : Span) (b : Block) (c : Expr) (hb : BOK b) (hc : EOK c) :
+/-- the walk of an `until` condition -/
+abbrev TOK (e : Expr) : Prop := DescOK (fun σ => topE σ e) (fun inF env => tE inF env e)
+
+theorem repeat_case (sp : Span) (b : Block) (c : Expr) (hb : BOK b) (hc : TOK c) :
     BlockOK (fun σ => stmt σ (.repeat_ sp b c)) (fun inF env => sStmt inF env (.repeat_ sp b c)) := by
   intro σ inF env r
   obtain ⟨g, rb⟩ := hb σ.open inF env (open_rel σ r)
   have h2 := hc _ inF _ rb
-  have h3 := eagerE_pure _ c (h2.rel rb)
+  have h3 := restE_pure _ c (h2.rel rb)
   exact (inScope ((g.pure h2).pure h3)).block r rfl
 
 theorem if_case (sp : Span) (c : Expr) (b : Block) (elifs : ElseIfList) (els : OptBlock)
@@ -875,6 +927,62 @@ theorem stmtSs_ok (ss : SuffixList) : DescOK (fun σ => stmtSs σ ss) (fun inF e
     have h2 := descS_ok s _ inF env (h1.rel r)
     have h3 := stmtSs_ok rest _ inF env ((h1.trans h2).rel r)
     exact (h1.trans h2).trans h3
+theorem topE_ok (e : Expr) : TOK e := by
+  cases e with
+  | paren _ e => intro σ inF env r; simpa [topE, tE] using topE_ok e σ inF env r
+  | un _ _ e => intro σ inF env r; simpa [topE, tE] using topE_ok e σ inF env r
+  | bin _ l _ rr =>
+    intro σ inF env r
+    have h1 := topE_ok l σ inF env r
+    have h2 := topE_ok rr _ inF env (h1.rel r)
+    simpa [topE, tE] using h1.trans h2
+  | func _ _ body => intro σ inF env r; simpa [topE, tE] using body_ok body σ inF env r
+  | call c =>
+    cases c with
+    | mk _ p ss =>
+      intro σ inF env r
+      have h1 := eagerP_pure σ p r
+      have h2 := descP_ok p _ inF env (h1.rel r)
+      have h3 := stmtSs_ok ss _ inF env ((h1.trans h2).rel r)
+      simpa [topE, tE, List.append_assoc] using (h1.trans h2).trans h3
+  | tbl _ fs => intro σ inF env r; simpa [topE, tE] using topFields_ok fs σ inF env r
+  | var v =>
+    cases v with
+    | name _ => intro σ inF env r; simpa [topE, tE] using Pure.refl σ
+    | expr _ p ss =>
+      intro σ inF env r
+      have h1 := topP_ok p σ inF env r
+      have h2 := stmtSs_ok ss _ inF env (h1.rel r)
+      simpa [topE, tE] using h1.trans h2
+  | nil _ => intro σ inF env r; simpa [topE, tE] using Pure.refl σ
+  | true_ _ => intro σ inF env r; simpa [topE, tE] using Pure.refl σ
+  | false_ _ => intro σ inF env r; simpa [topE, tE] using Pure.refl σ
+  | dots _ => intro σ inF env r; simpa [topE, tE] using Pure.refl σ
+  | num _ => intro σ inF env r; simpa [topE, tE] using Pure.refl σ
+  | str _ _ _ => intro σ inF env r; simpa [topE, tE] using Pure.refl σ
+  | unsupported _ => intro σ inF env r; simpa [topE, tE] using Pure.refl σ
+theorem topP_ok (p : Prefix) : DescOK (fun σ => topP σ p) (fun inF env => tP inF env p) := by
+  cases p with
+  | name _ => intro σ inF env r; simpa [topP, tP] using Pure.refl σ
+  | expr e => intro σ inF env r; simpa [topP, tP] using topE_ok e σ inF env r
+theorem topF_ok (f : Field) : DescOK (fun σ => topF σ f) (fun inF env => tF inF env f) := by
+  cases f with
+  | exprKey _ k v =>
+    intro σ inF env r
+    have h1 := topE_ok k σ inF env r
+    have h2 := topE_ok v _ inF env (h1.rel r)
+    simpa [topF, tF] using h1.trans h2
+  | nameKey _ _ v => intro σ inF env r; simpa [topF, tF] using topE_ok v σ inF env r
+  | noKey v => intro σ inF env r; simpa [topF, tF] using topE_ok v σ inF env r
+  | unsupported _ => intro σ inF env r; simpa [topF, tF] using Pure.refl σ
+theorem topFields_ok (fs : FieldList) : DescOK (fun σ => topFields σ fs) (fun inF env => tFs inF env fs) := by
+  cases fs with
+  | nil => intro σ inF env r; simpa [topFields, tFs] using Pure.refl σ
+  | cons f rest =>
+    intro σ inF env r
+    have h1 := topF_ok f σ inF env r
+    have h2 := topFields_ok rest _ inF env (h1.rel r)
+    simpa [topFields, tFs] using h1.trans h2
 theorem body_ok (body : FuncBody) : BodyOK body := by
   cases body with
   | mk sp params b => exact body_case sp params b (block_ok b)
@@ -909,7 +1017,7 @@ theorem stmt_ok (s : Stmt) : BlockOK (fun σ => stmt σ s) (fun inF env => sStmt
     | mk sp p ss => exact call_case sp p ss (descP_ok p) (stmtSs_ok ss)
   | do_ sp b => exact do_case sp b (block_ok b)
   | while_ sp c b => exact while_case sp c b (descE_ok c) (block_ok b)
-  | repeat_ sp b c => exact repeat_case sp b c (block_ok b) (descE_ok c)
+  | repeat_ sp b c => exact repeat_case sp b c (block_ok b) (topE_ok c)
   | if_ sp c b elifs els =>
     refine if_case sp c b elifs els (descE_ok c) (block_ok b) (elseifs_ok elifs) ?_
     intro eb h
